@@ -619,4 +619,19 @@ Section ByteTrip.
     intros Hb Hgo Hnb. destruct (encode_then_parse_item f t v b Hb Hgo) as (c & Hn & -> & Hf).
     replace (ser c) with (ensure_cbor c); [exact Hf|]. destruct c; try reflexivity. exfalso. exact (Hnb _ eq_refl).
   Qed.
+
+  (* the encoding of a tagged class is never a bare byte string: the first byte carries major type 6 *)
+  Lemma tagged_not_bytes f n tg name t' v b : lookup n env = Some (TTag tg name t') -> bst (TRef n) v -> tc f (TRef n) v = Ok b ->
+    forall bb, b <> ser (CBytes bb).
+  Proof.
+    intros Hlk Hb Hgo bb E. inversion Hb as [n0 t0 v0 Hl0 Hb0| | | | | | | | | | | | | | | | | | | | | | |]; subst. rewrite Hlk in Hl0. injection Hl0 as <-.
+    inversion Hb0; subst.
+    destruct f as [|[|f2]]; [discriminate| |].
+    - cbn [to_cbor to_cbor_body] in Hgo. rewrite Hlk in Hgo. discriminate.
+    - cbn [to_cbor to_cbor_body] in Hgo. rewrite Hlk in Hgo. cbn [to_cbor to_cbor_body] in Hgo.
+      match type of Hgo with (let* c := ?M in _) = _ => destruct M as [c|]; cbn [bind] in Hgo; [|discriminate] end. injection Hgo as E.
+      unfold ser in E. cbn [unpyn encode] in E.
+      destruct (head_first 6 tg ltac:(lia) ltac:(lia)) as (x & r & Hx & Hdiv & _). destruct (head_first 2 (blen bb) ltac:(lia) (blen_nonneg bb)) as (y & r' & Hy & Hdiv' & _).
+      rewrite Hx, Hy in E. cbn [app] in E. injection E as -> _. lia.
+  Qed.
 End ByteTrip.
